@@ -153,10 +153,17 @@ func VerifH_grpc_send() {
 		// with a compressor the interesting sizes are 0 (nothing to compress) and those whose
 		// compressed form ends in the last bytes of the pooled 64-byte buffer
 		sendLimit, recvLimit = 80, 80
-		if vfBool() {
+		switch vfChoice(3) {
+		case 0:
 			n = 54 + vfLen(10)
-		} else {
+		case 1:
 			n = vfLen(3)
+		default:
+			// around the send limit: the limit applies to the message, not to its compressed form
+			// (which is 2 bytes longer here)
+			sendLimit = 3 + vfLen(1)
+			n = sendLimit - 1 + vfLen(2)
+			vfCover("compressed-at-limit")
 		}
 	}
 	reply := newFakeMsg(schemaRoute())
@@ -191,6 +198,11 @@ func VerifH_grpc_send() {
 		} else {
 			vfCheck(len(st.outLen) == 0, "out-payload stats event for a reply that was not sent")
 		}
+	}
+	if compressed && n > sendLimit {
+		vfCheck(err != nil && len(w.buf) == 0, "a reply above the send limit was sent through the compressor")
+		vfCover("compressed-refused")
+		return
 	}
 	if compressed {
 		vfCheck(err == nil, "compressed reply within the limits was refused")
